@@ -6,7 +6,7 @@ VERIF = os.path.dirname(os.path.dirname(os.path.abspath(__file__)))
 
 
 def write(prop_id, tier, seed, level, coverage, assumptions, wall_s, violations):
-    d = os.path.join(VERIF, 'evidence')
+    d = os.environ.get('VERIF_EVIDENCE_DIR') or os.path.join(VERIF, 'evidence')
     os.makedirs(d, exist_ok=True)
     body = {'property_id': prop_id, 'tier': tier, 'seed': int(seed), 'level': level,
             'coverage': coverage, 'assumptions': list(assumptions),
